@@ -733,6 +733,11 @@ class Frame(object):
 
     def st_Assign(self, node, st):
         v = self.ev(node.value, st)
+        if len(node.targets) > 1 and isinstance(v, Obj) and v.name.startswith('<new'):
+            # a = b.c = K(): one object behind every target - name it once (after the first plain name), not per target
+            nm = next((t.id for t in node.targets if isinstance(t, ast.Name)), None)
+            if nm is not None:
+                v = Obj(nm, v.cls, v.text)
         for t in node.targets:
             self.assign(t, v, st, node)
         return [(st, 'normal')]
